@@ -295,6 +295,10 @@ K_C17 = [
     H(ROOT + 'c17::c17_k_client_pin_n1_n2_n3', ['ctap2::Response::serialize::<1|2|3>'], kind='bounded', bound='N in {1, 2, 3}', tier='thorough', timeout=1800),
     H(ROOT + 'c17::c17_k_client_pin_n16', ['ctap2::Response::serialize::<16>'], kind='bounded', bound='N = 16', tier='thorough', timeout=1800),
 ]
+K_ICON_MB = H(WEB + 'c13_k_user_icon_multibyte_keep_or_drop', ['webauthn::deserialize_from_str_and_skip_if_too_long::<_, 128>'], kind='bounded',
+              bound='non-ASCII texts (two-byte characters, optional ASCII tail) of 0..=299 bytes', timeout=1500)
+K_NAME = H(WEB + 'c15_k_name_present_stays_present', ['webauthn::deserialize_from_str_and_truncate::<_, 64>'], kind='bounded',
+           bound='absent, or ASCII text of 0..=70 bytes', timeout=1500)
 K_C13 = [
     H(WEB + 'c13_k_is_utf8_char_boundary', ['webauthn::is_utf8_char_boundary']),
     H(WEB + 'c13_k_floor_char_boundary_contract', ['webauthn::floor_char_boundary'], kind='bounded',
@@ -309,6 +313,8 @@ K_C13 = [
     H(WEB + 'c13_k_user_icon_keep_or_drop', ['webauthn::deserialize_from_str_and_skip_if_too_long::<_, 128>'], kind='bounded',
       bound='ASCII texts of 0..=300 bytes', timeout=1500),
     H(WEB + 'c13_k_rp_icon_discarded', ['<webauthn::Icon as Deserialize>::deserialize'], kind='bounded', bound='ASCII texts of 0..=300 bytes'),
+    K_ICON_MB,
+    K_NAME,
     H(WEB + 'c13_k_floor_char_boundary_contract_8', ['webauthn::floor_char_boundary'], kind='bounded',
       bound='exact UTF-8 precondition; strings <= 8 bytes', tier='thorough', timeout=2400),
 ]
@@ -405,12 +411,12 @@ K_GNA = [
     H(ROOT + 'c02::c02_k_get_next_assertion_like_get_assertion', ['ctap2::Response::serialize::<48> (GetAssertion | GetNextAssertion arm)'],
       kind='bounded', bound='one concrete shape of the fixed members, symbolic optional scalars, N = 48', timeout=3600, tier='thorough'),
 ]
-PROPS['C01']['kani'] = GC_DECODE + GC_OPTIONS + K_LOSSY + K_TYPE_CAP
+PROPS['C01']['kani'] = GC_DECODE + GC_OPTIONS + K_LOSSY + K_TYPE_CAP + [K_NAME]
 PROPS['C02']['kani'] = K_C17[:5] + K_GNA + K_FILTERED_LEN + K_FILTERED_SER + GC_ROUNDTRIP
 PROPS['C03']['kani'] = K_C03_HEADS + K_FILTERED_LEN + K_FILTERED_SER
 PROPS['C05']['kani'] = GC_DECODE[1:] + K_LOSSY[3:4]
 PROPS['C06']['kani'] = GC_OPTIONS
-PROPS['C12']['kani'] = GC_CAP + K_TYPE_CAP + K_LOSSY[0:1]
+PROPS['C12']['kani'] = GC_CAP + K_TYPE_CAP + K_LOSSY[0:1] + [K_ICON_MB]
 PROPS['C15']['kani'] = GC_ROUNDTRIP + K_C18_STRINGS[:3]
 PROPS['C18']['kani'] = K_C18_STRINGS
 
@@ -439,7 +445,7 @@ PROPS['C17']['explanation'] = ('Unbounded proof for every capacity N >= 1, every
     'member-less map body) is excluded by the precondition and demonstrated by its own Kani harness. Kani harnesses for small N run '
     'the real monomorphised code.')
 PROPS['C02']['verus'] = ['c17_response_serialize']
-PROPS['C15']['kani'] = PROPS['C15']['kani'] + K_LOSSY[0:1] + K_LOSSY[4:5]
+PROPS['C15']['kani'] = PROPS['C15']['kani'] + K_LOSSY[0:1] + K_LOSSY[4:5] + [K_NAME]
 PROPS['C16']['kani'] = []
 
 # bounded validation of the assumed dependency contracts on the real dependency code
